@@ -730,6 +730,54 @@ def gen_chain(rng, maxlen=4, doc=None, wild=False):
     return ops
 
 
+def gen_tree_case(rng):
+    """derivations from shared prefixes: t0 = Transformer(path); every further transformer is derived
+    from an EARLIER one (not only the latest) by one operation; then some of them are applied, some
+    twice, in any order.  Every operation method returns a new transformer and leaves its origin alone."""
+    doc = gen_doc(rng, rng.choice([1, 2, 2]))
+    root = gen_path_for(rng, doc)
+    chains = [[['select', root]]]
+    derive = []
+    n = rng.choice([1, 2, 2, 3, 3, 4, 5])
+    for _ in range(n):
+        # prefer branching: an origin that already has a descendant
+        parent = rng.randrange(len(chains)) if rng.random() < 0.7 else 0
+        attr_seen = any(o[0] == 'select' and has_attr(o[1]) for o in chains[parent])
+        for _try in range(30):
+            op = gen_op(rng, 2, doc)
+            if op[0] == 'buffer':
+                continue
+            if op[0] == 'select' and has_attr(op[1]):
+                continue
+            if attr_seen and op[0] in ZERO_WIDTH:
+                continue
+            if op[0] in ('copy', 'cut') and any(o[0] in ('copy', 'cut') and o[1] == op[1] for o in chains[parent]):
+                continue                 # one writer per buffer and chain (C20-buffer-two-writers)
+            break
+        else:
+            op = ['remove']
+        if op[0] in ('copy', 'cut'):
+            op = [op[0], len(chains), op[2]]         # a buffer of its own per derived transformer
+        derive.append([parent, op])
+        chains.append(chains[parent] + [op])
+    apply = [rng.randrange(len(chains)) for _ in range(rng.choice([2, 3, 4]))]
+    if 0 not in apply:
+        apply.append(0)                   # the shared origin is used again after the derivations
+    return {'kind': 'tree', 'doc': doc, 'root': root, 'derive': derive, 'apply': apply}
+
+
+def tree_chains(case):
+    chains = [[['select', case['root']]]]
+    for parent, op in case['derive']:
+        chains.append(chains[parent] + [op])
+    return chains
+
+
+def tree_shape(case):
+    """parents of the derived transformers, e.g. 0,0,1: two children of the root, one grandchild"""
+    return ','.join(str(p) for p, _ in case['derive'])
+
+
 def stagewise(ops):
     """mirror of `Genshi.Tf.stagewise` (Model/TfLazy.lean): between two buffer() barriers no buffer is
     written twice, or read by an injector and written -- the chains for which the stage-wise model is exact"""
